@@ -34,7 +34,7 @@ EXTRA_MODULES = {
     "C08": ["Proofs.C08", "Proofs.C08Source", "Proofs.ExprLexemes"],
     "C10": ["Proofs.C10", "Proofs.C10Source", "Proofs.SrcRelRender", "Proofs.C19E2E"],
     "C11": ["Proofs.C11", "Proofs.C11Source", "Proofs.SrcLoop"],
-    "C13": ["Proofs.RunLemmas", "Proofs.HyphenFace"],
+    "C13": ["Proofs.RunLemmas", "Proofs.HyphenFace", "Proofs.C13Source", "Proofs.HyphenSource", "Proofs.HyphenSourceCompile", "Proofs.C19E2E"],
     "C12": ["Proofs.C12", "Proofs.C12Source"],
     "C14": ["Proofs.C14", "Proofs.C14Source"],
     "C18": ["Proofs.C18"],
